@@ -57,7 +57,7 @@ func makeURLKey(u *url.URL) string {
 			// the same opaque part under http and https names different resources,
 			// and net/http connects to u.Host and sends Opaque?RawQuery as the
 			// request target: both belong to the key
-			key := scheme + ":[" + strings.ToLower(u.Host) + "]" + u.Opaque
+			key := scheme + ":[" + asciiLower(u.Host) + "]" + u.Opaque
 			if u.RawQuery != "" {
 				key += "?" + u.RawQuery
 			}
@@ -88,9 +88,9 @@ func makeURLKey(u *url.URL) string {
 	}
 	// RFC 3986 §6.2.2.1: Host is lowercased (an IPv6 zone identifier is not
 	// part of the address and keeps its case, RFC 6874).
-	hostPort := strings.ToLower(host)
+	hostPort := asciiLower(host)
 	if i := strings.IndexByte(host, '%'); i >= 0 && strings.Contains(host[:i], ":") {
-		hostPort = strings.ToLower(host[:i]) + host[i:]
+		hostPort = asciiLower(host[:i]) + host[i:]
 	}
 	if strings.Contains(hostPort, ":") {
 		// IP-literal: keep the brackets, otherwise "[::1]:8080" and "[::1:8080]"
@@ -105,16 +105,14 @@ func makeURLKey(u *url.URL) string {
 
 	// RFC 3986 §6.2.3: An empty path for http/https is normalized to "/".
 	// Also see https://datatracker.ietf.org/doc/html/rfc7230#section-2.7.3
-	path := normalized.EscapedPath()
+	// The path as the client spelled it: percent-encoding is normalised first
+	// (RFC 3986 §6.2.2.2, which turns "%2E" into "."), dot-segments are removed
+	// afterwards (§6.2.2.3) - in one pass, so that "/a/%2E%2E/../b" is "/b".
+	path := u.EscapedPath()
 	if path == "" && (scheme == "http" || scheme == "https") {
 		path = "/"
 	}
-
-	// RFC 3986 §6.2.2.2: Normalize percent-encoding in path.
-	path = normalizePercentEncoding(path)
-	// RFC 3986 §6.2.2.3 once more: "%2E" has just become ".", and dot-segments
-	// spelled that way were not seen by ResolveReference.
-	path = removeDotSegments(path)
+	path = removeDotSegments(normalizePercentEncoding(path))
 	result := scheme + "://" + hostPort + path
 
 	// RFC 3986 §6.2.2.2: Normalize percent-encoding in query, if present.
@@ -156,6 +154,24 @@ func normalizePercentEncoding(s string) string {
 		}
 	}
 	return b.String()
+}
+
+// asciiLower lower-cases ASCII letters only: host names are compared
+// case-insensitively in ASCII (RFC 3986 §6.2.2.1); Unicode case mapping would
+// merge different hosts (U+0130 "İ" becomes "i").
+func asciiLower(s string) string {
+	for i := 0; i < len(s); i++ {
+		if c := s[i]; 'A' <= c && c <= 'Z' {
+			b := []byte(s)
+			for j := i; j < len(b); j++ {
+				if 'A' <= b[j] && b[j] <= 'Z' {
+					b[j] += 'a' - 'A'
+				}
+			}
+			return string(b)
+		}
+	}
+	return s
 }
 
 // removeDotSegments applies RFC 3986 §5.2.4 to an absolute path.
